@@ -314,6 +314,7 @@ void run_child_c19(const Plan &P, const std::string &rundir)
     for (int i = 0; i < 64; i++)
         C->producer_tid[i] = -1;
     alarm(20);
+    sim::set_fake_pid(4242);
     sim::clock_set(1767225600ll * sim::SEC + 12 * 3600 * sim::SEC, 1000 * sim::SEC);
 
     std::string family = P.cfg["family"].toString().toStdString();
